@@ -26,20 +26,20 @@ import (
 
 // FileManager manages in-memory files that used during the code generation process.
 type FileManager struct {
-	files []*plugin.Generated
-	patch map[string][]*plugin.Generated
-	index map[string]int
-	count map[string]int
-	log   backend.LogFunc
+	files   []*plugin.Generated
+	patch   map[string][]*plugin.Generated
+	index   map[string]int
+	renamed map[string][]int // original name => indices of the files renamed from it
+	log     backend.LogFunc
 }
 
 // NewFileManager creates a new FileManager.
 func NewFileManager(log backend.LogFunc) *FileManager {
 	return &FileManager{
-		patch: make(map[string][]*plugin.Generated),
-		index: make(map[string]int),
-		count: make(map[string]int),
-		log:   log,
+		patch:   make(map[string][]*plugin.Generated),
+		index:   make(map[string]int),
+		renamed: make(map[string][]int),
+		log:     log,
 	}
 }
 
@@ -69,11 +69,11 @@ FileLoop:
 				fst := idx
 				ext := filepath.Ext(name)
 				pth := strings.TrimSuffix(name, ext)
-				cnt := 1
 
-				var renamed string
-				for {
-					if fm.files[idx].Content == f.Content { // duplicate content
+				// duplicate content: compare with the first file of this name and
+				// with every file that was renamed from it
+				for _, idx = range append([]int{fst}, fm.renamed[name]...) {
+					if fm.files[idx].Content == f.Content {
 						fm.log.Info(fmt.Sprintf("[%s] discard generated file '%s': size %d", src, name, len(f.Content)))
 						for j := i + 1; j < len(files) && !files[j].IsSetName(); j++ {
 							fm.log.Info("discard patch @", files[j].GetInsertionPoint())
@@ -81,19 +81,21 @@ FileLoop:
 						}
 						continue FileLoop
 					}
+				}
+
+				// pick the first free name: a candidate may already be taken by
+				// an unrelated file that was submitted under that very name
+				cnt := len(fm.renamed[name]) + 1
+				renamed := fmt.Sprintf("%s_%d%s", pth, cnt, ext)
+				for _, taken := fm.index[renamed]; taken; _, taken = fm.index[renamed] {
+					cnt++
 					renamed = fmt.Sprintf("%s_%d%s", pth, cnt, ext)
-					if cnt > fm.count[name] {
-						break
-					} else {
-						idx = fm.index[renamed]
-						cnt++
-					}
 				}
 
 				fm.log.Warn(fmt.Sprintf("[%s] file names conflict: '%s' (%d <> %d)", src, name, len(fm.files[fst].Content), len(f.Content)))
 				fm.index[renamed] = len(fm.files)
+				fm.renamed[name] = append(fm.renamed[name], len(fm.files))
 				fm.files = append(fm.files, f)
-				fm.count[name]++
 				f.Name = &renamed
 				name = renamed // propagate the new name to last
 			}
